@@ -11,7 +11,7 @@ import os
 import sys
 import traceback
 
-from .model import Model, AnalysisError
+from .model import Model, AnalysisError, form_for
 from .report import Report
 
 CLAIMED = ['C01', 'C02', 'C04', 'C06', 'C10', 'C11', 'C13', 'C14', 'C15', 'C16', 'C17', 'C18', 'C21',
@@ -27,8 +27,12 @@ def run_property(prop, tier, model=None, write=True, quiet=False):
         print('ANALYSIS-ERROR property=%s no checker module sa/props/%s.py' % (prop, prop))
         return 2, rep
     try:
+        form = form_for(prop)
         if model is None:
-            model = Model()
+            model = Model(form=form)
+        elif model.form != form:
+            raise AnalysisError('%s reads the %s tree but was handed the %s one' % (prop, form, model.form))
+        rep.tree_form = form
         pm.run(model, rep, tier)
         if tier == 'thorough' and write:
             # the tree verdict above is complete; the adequacy run and the package-wide cross-reference lints only add
@@ -117,9 +121,12 @@ def main(argv=None):
         return code
     if cmd == 'all':
         worst = 0
-        model = Model()
+        models = {}
         for p in (argv or CLAIMED):
-            code, _ = run_property(p, tier, model=model, write=write)
+            f = form_for(p)
+            if f not in models:
+                models[f] = Model(form=f)
+            code, _ = run_property(p, tier, model=models[f], write=write)
             worst = max(worst, code)
         return worst
     if cmd == 'replay':
